@@ -83,7 +83,7 @@ def gen_cfg(rng: random.Random, focus: str | None = None) -> tuple[LoopCfg, Prof
                  ("p_sleeper", 0.35), ("p_attempt_start", 0.15), ("p_attempt_end", 0.2),
                  ("metric", 0.7), ("log", 0.5), ("abort_if", 0.5), ("c_handler", 0.3),
                  ("c_before_sleep", 0.25), ("c_sleeper", 0.5), ("c_attempt_start", 0.15),
-                 ("c_attempt_end", 0.2), ("timeline", 0.3), ("async", 0.4)]:
+                 ("c_attempt_end", 0.2), ("timeline", 0.3), ("async", 0.4), ("attempt_timeout", 0.12)]:
         if rng.random() < p:
             flags.add(f)
     c.kind = rng.choice(["Retry", "Retry", "Policy", "Policy", "Policy", "RetryPolicy", "decorator"])
@@ -117,6 +117,29 @@ def gen_cfg(rng: random.Random, focus: str | None = None) -> tuple[LoopCfg, Prof
         for k in c.per_class:
             w[k] += 2.0
     w["UNKNOWN"] += 1.5
+    if rng.random() < 0.12:
+        # "alternating" profile: two classes take turns (UNKNOWN or a capped class with another retryable one),
+        # enough attempts, room in the budget, far deadline — what a cap that silently became a *streak* limit,
+        # or a counter charged to the wrong class, needs in order to show
+        a = rng.choice(["UNKNOWN", "UNKNOWN"] + [k for k in c.per_class] if c.per_class else ["UNKNOWN"])
+        b = rng.choice([k for k in ("TRANSIENT", "RATE_LIMIT", "SERVER_ERROR", "CONCURRENCY") if k != a])
+        w = {k: 0.02 for k in CLASSES}
+        w[a] = w[b] = 5.0
+        c.max_attempts = rng.choice([4, 5, 6, 7])
+        c.deadline = 1000
+        c.max_unknown = rng.choice([0, 1, 1, 2])
+        if a != "UNKNOWN":
+            c.per_class[a] = rng.choice([1, 1, 2])
+        c.per_class.pop(b, None)
+        if c.strat_default is None:
+            c.strat_default = "ctx"
+        if c.budget is not None and rng.random() < 0.7:
+            c.budget = None
+            c.init_budget = []
+        prof.p_success = 0.05
+        prof.faults = "none"
+        prof.p_abort = 0.0
+        prof.p_defer = prof.p_habort = prof.p_other = 0.0
     prof.class_weights = w
     prof.p_success = rng.choice([0.05, 0.2, 0.35])
     prof.faults = rng.choice(["none", "none", "hooks", "all"])
